@@ -331,7 +331,7 @@ pub const STAGES: &[Stage] = &[Stage { name: "totality", f: stage }, Stage { nam
 pub fn run(rc: &mut RunCtx) {
     // shapes: 0 empty known-size, 1 unknown-size closed by the next sibling, 2 with a child, 3 separated by a root-level leaf
     rc.run_indexed(STAGES[1], 4, true, &|k| Input::Args(vec![k, 3000]));
-    rc.run_pt(STAGES[0], rc.pick(240_000, 5_000_000), (128, 700));
+    rc.run_pt(STAGES[0], rc.pick(960_000, 5_000_000), (128, 700));
     for l in ["error_returned", "try_recover_called", "injected_error_surfaced", "fused_checked", "capacity_below_16", "input_adversarial_headers", "input_random_bytes", "failure_injected_at_tag_boundary"] {
         rc.require_label("totality", l, 10_000);
     }
